@@ -1,1 +1,248 @@
-// roundtrip lemmas (to be filled)
+// ---- lemmas/monitor_roundtrip.rs : C14 "connecting a block and then disconnecting it restores the view" ----
+// Pure spec-level lemmas over the reference change algebra of frag/monitor_spec.rs; the real functions are
+// tied to fwd_abs / bwd_abs / add_block_abs / remove_block_abs by their (proved) postconditions.
+
+// The double-spend marker is the one field whose undo is not an exact inverse per change (several
+// FundingInputSpent of one block share it); everything else is restored change by change.
+pub open spec fn no_dsh(a: StAbs) -> StAbs { StAbs { dsh: None, ..a } }
+
+// what the block listener guarantees about a change it emits in state `a` (read off PushListener):
+// confirmations are of events that have not happened yet, spends are of outputs unspent on this chain
+pub open spec fn rt_applicable(a: StAbs, c: ChAbs) -> bool {
+    fwd_applicable(a, c) && match c {
+        ChAbs::FundingConfirmed(_) => a.funding_height.is_none() && a.funding_outpoint.is_none(),
+        ChAbs::FundingInputSpent(_) => true,
+        ChAbs::UnilateralCloseConfirmed(_, _, _, _) => a.closing.is_none() && a.unilateral.is_none(),
+        ChAbs::MutualCloseConfirmed(_, _) => a.mutual.is_none(),
+        ChAbs::OurOutputSpent(_) => !a.closing->Some_0.our_output->Some_0.1,
+        ChAbs::HTLCOutputSpent(v, o2) => {
+            let c0 = a.closing->Some_0;
+            !c0.htlc_spents[first_pos(c0.htlc_outputs, v)] && !second_contains(c0.second, o2)
+        },
+        ChAbs::SecondLevelHTLCOutputSpent(o) => !a.closing->Some_0.second[second_first(a.closing->Some_0.second, o)].1,
+    }
+}
+
+pub proof fn lemma_first_pos(s: Seq<u32>, v: u32)
+    requires s.contains(v),
+    ensures 0 <= first_pos(s, v) < s.len(), s[first_pos(s, v)] == v,
+    decreases s.len()
+{
+    if s[0] != v {
+        let i = choose|i: int| 0 <= i < s.len() && s[i] == v;
+        assert(s.drop_first()[i - 1] == v);
+        lemma_first_pos(s.drop_first(), v);
+    }
+}
+pub proof fn lemma_second_first(s: Seq<(OutPoint, bool)>, o: OutPoint)
+    requires second_contains(s, o),
+    ensures 0 <= second_first(s, o) < s.len(), s[second_first(s, o)].0 == o,
+    decreases s.len()
+{
+    if s[0].0 != o {
+        let i = choose|i: int| 0 <= i < s.len() && (#[trigger] s[i]).0 == o;
+        assert(s.drop_first()[i - 1].0 == o);
+        lemma_second_first(s.drop_first(), o);
+    }
+}
+pub proof fn lemma_second_remove_fresh(s: Seq<(OutPoint, bool)>, o: OutPoint)
+    requires !second_contains(s, o),
+    ensures second_remove(s, o) == s,
+    decreases s.len()
+{
+    reveal(Seq::filter);
+    if s.len() > 0 {
+        assert(!second_contains(s.drop_last(), o)) by {
+            if second_contains(s.drop_last(), o) {
+                let i = choose|i: int| 0 <= i < s.drop_last().len() && (#[trigger] s.drop_last()[i]).0 == o;
+                assert(s[i].0 == o);
+            }
+        }
+        lemma_second_remove_fresh(s.drop_last(), o);
+        assert(s.last().0 != o);
+        assert(s =~= s.drop_last().push(s.last()));
+    }
+}
+pub proof fn lemma_second_remove_pushed(s: Seq<(OutPoint, bool)>, o: OutPoint, b: bool)
+    requires !second_contains(s, o),
+    ensures second_remove(s.push((o, b)), o) == s,
+{
+    reveal(Seq::filter);
+    assert(s.push((o, b)).drop_last() =~= s);
+    lemma_second_remove_fresh(s, o);
+}
+
+// one change: undoing it restores everything but (possibly) the shared double-spend marker
+pub proof fn lemma_change_roundtrip(a: StAbs, c: ChAbs)
+    requires rt_applicable(a, c),
+    ensures
+        bwd_applicable(fwd_abs(a, c), c),                                                        //[C14.lemma.undo-never-aborts]
+        no_dsh(bwd_abs(fwd_abs(a, c), c)) == no_dsh(a),                                          //[C14.lemma.change-roundtrip]
+        !(c is FundingConfirmed) && !(c is FundingInputSpent) ==> bwd_abs(fwd_abs(a, c), c) == a,
+{
+    match c {
+        ChAbs::HTLCOutputSpent(v, o2) => {
+            let c0 = a.closing->Some_0;
+            lemma_first_pos(c0.htlc_outputs, v);
+            lemma_second_remove_pushed(c0.second, o2, false);
+            let i = first_pos(c0.htlc_outputs, v);
+            assert(c0.htlc_spents.update(i, true).update(i, false) =~= c0.htlc_spents);
+        },
+        ChAbs::SecondLevelHTLCOutputSpent(o) => {
+            let s = a.closing->Some_0.second;
+            lemma_second_first(s, o);
+            let i = second_first(s, o);
+            let s1 = second_set_spent(s, o, true);
+            assert(second_contains(s1, o)) by { assert(s1[i].0 == o); }
+            lemma_second_first_stable(s, o, true);
+            assert(s1.update(i, (o, false)) =~= s);
+        },
+        ChAbs::UnilateralCloseConfirmed(t, f, our, idx) => {},
+        _ => {},
+    }
+}
+// updating the first match keeps it the first match
+pub proof fn lemma_second_first_stable(s: Seq<(OutPoint, bool)>, o: OutPoint, b: bool)
+    requires second_contains(s, o),
+    ensures second_first(second_set_spent(s, o, b), o) == second_first(s, o),
+    decreases s.len()
+{
+    lemma_second_first(s, o);
+    if s[0].0 != o {
+        let i = choose|i: int| 0 <= i < s.len() && (#[trigger] s[i]).0 == o;
+        assert(s.drop_first()[i - 1].0 == o);
+        lemma_second_first_stable(s.drop_first(), o, b);
+        lemma_second_first(s.drop_first(), o);
+        let k = second_first(s.drop_first(), o);
+        assert(second_set_spent(s, o, b).drop_first() =~= second_set_spent(s.drop_first(), o, b));
+    }
+}
+
+// the non-dsh part of an undo does not read the dsh marker
+pub proof fn lemma_bwd_ignores_dsh(x: StAbs, y: StAbs, c: ChAbs)
+    requires no_dsh(x) == no_dsh(y),
+    ensures no_dsh(bwd_abs(x, c)) == no_dsh(bwd_abs(y, c)), bwd_applicable(x, c) == bwd_applicable(y, c),
+{}
+
+// all changes of a block are of the kind the listener can emit, each in the state left by its predecessors
+pub open spec fn rt_chain_ok(a: StAbs, cs: Seq<ChAbs>) -> bool
+    decreases cs.len()
+{
+    cs.len() == 0 || (rt_applicable(a, cs[0]) && rt_chain_ok(fwd_abs(a, cs[0]), cs.drop_first()))
+}
+
+pub proof fn lemma_fold_bwd_append(a: StAbs, xs: Seq<ChAbs>, c: ChAbs)
+    ensures fold_bwd(a, xs.push(c)) == bwd_abs(fold_bwd(a, xs), c)
+    decreases xs.len()
+{
+    reveal_with_fuel(fold_bwd, 3);
+    assert(xs.push(c)[0] == (if xs.len() == 0 { c } else { xs[0] }));
+    if xs.len() == 0 {
+        assert(xs.push(c).drop_first() =~= Seq::<ChAbs>::empty());
+    } else {
+        assert(xs.push(c).drop_first() =~= xs.drop_first().push(c));
+        lemma_fold_bwd_append(bwd_abs(a, xs[0]), xs.drop_first(), c);
+    }
+}
+pub proof fn lemma_bwd_chain_append(a: StAbs, xs: Seq<ChAbs>, c: ChAbs)
+    requires bwd_chain_ok(a, xs), bwd_applicable(fold_bwd(a, xs), c),
+    ensures bwd_chain_ok(a, xs.push(c))
+    decreases xs.len()
+{
+    reveal_with_fuel(bwd_chain_ok, 3);
+    reveal_with_fuel(fold_bwd, 3);
+    assert(xs.push(c)[0] == (if xs.len() == 0 { c } else { xs[0] }));
+    if xs.len() == 0 {
+        assert(xs.push(c).drop_first() =~= Seq::<ChAbs>::empty());
+    } else {
+        assert(xs.push(c).drop_first() =~= xs.drop_first().push(c));
+        lemma_bwd_chain_append(bwd_abs(a, xs[0]), xs.drop_first(), c);
+    }
+}
+
+// a whole change list: undoing it in reverse order never aborts and restores everything but the dsh marker
+pub proof fn lemma_list_roundtrip(a: StAbs, cs: Seq<ChAbs>)
+    requires rt_chain_ok(a, cs),
+    ensures
+        bwd_chain_ok(fold_fwd(a, cs), cs.reverse()),                                             //[C14.lemma.list-undo-never-aborts]
+        no_dsh(fold_bwd(fold_fwd(a, cs), cs.reverse())) == no_dsh(a),                            //[C14.lemma.list-roundtrip]
+        fwd_chain_ok(a, cs),
+    decreases cs.len()
+{
+    if cs.len() == 0 {
+        assert(cs.reverse() =~= Seq::<ChAbs>::empty());
+    } else {
+        let c = cs[0];
+        let rest = cs.drop_first();
+        let a1 = fwd_abs(a, c);
+        lemma_list_roundtrip(a1, rest);
+        let top = fold_fwd(a1, rest);
+        assert(fold_fwd(a, cs) == top);
+        assert(cs.reverse() =~= rest.reverse().push(c));
+        lemma_fold_bwd_append(top, rest.reverse(), c);
+        let mid = fold_bwd(top, rest.reverse());
+        // mid agrees with a1 up to dsh, so undoing c from mid behaves like undoing it from a1
+        lemma_change_roundtrip(a, c);
+        lemma_bwd_ignores_dsh(mid, a1, c);
+        lemma_bwd_chain_append(top, rest.reverse(), c);
+    }
+}
+
+// ---- block level: heights and the swept markers -------------------------------------------------
+// the swept markers record exactly whether the closing outputs are (all) swept
+pub open spec fn swept_inv(a: StAbs) -> bool {
+    (a.closing_swept.is_some() == abs_closing_swept(a)) && (a.our_swept.is_some() == abs_our_output_swept(a))
+}
+pub proof fn lemma_swept_ignores_dsh(x: StAbs, y: StAbs)
+    requires no_dsh(x) == no_dsh(y),
+    ensures abs_closing_swept(x) == abs_closing_swept(y), abs_our_output_swept(x) == abs_our_output_swept(y),
+{}
+
+pub proof fn lemma_block_roundtrip(a: StAbs, cs: Seq<ChAbs>)
+    requires
+        a.height < u32::MAX - 1, swept_inv(a),
+        rt_chain_ok(StAbs { saw_block: true, height: (a.height + 1) as u32, ..a }, cs),
+    ensures
+        bwd_chain_ok(add_block_abs(a, cs), cs.reverse()),                                         //[C14.lemma.block-undo-never-aborts]
+        // connecting a block and disconnecting it again restores the previous view
+        no_dsh(remove_block_abs(add_block_abs(a, cs), cs)) == no_dsh(StAbs { saw_block: true, ..a }),   //[C14.lemma.block-roundtrip]
+{
+    let a1 = StAbs { saw_block: true, height: (a.height + 1) as u32, ..a };
+    lemma_list_roundtrip(a1, cs);
+    let a2 = fold_fwd(a1, cs);
+    let b = add_block_abs(a, cs);
+    // b differs from a2 only in the swept markers, which the change algebra neither reads nor writes
+    lemma_fold_bwd_markers(a2, b, cs.reverse());
+    lemma_fold_fwd_keeps_markers(a1, cs);
+    let u = fold_bwd(b, cs.reverse());
+    let u2 = fold_bwd(a2, cs.reverse());
+    lemma_swept_ignores_dsh(u2, a1);
+    lemma_fold_fwd_height(a1, cs);
+}
+// same state up to the swept markers
+pub open spec fn eq_mod_markers(x: StAbs, y: StAbs) -> bool {
+    StAbs { closing_swept: None, our_swept: None, ..x } == StAbs { closing_swept: None, our_swept: None, ..y }
+}
+pub proof fn lemma_fold_bwd_markers(x: StAbs, y: StAbs, cs: Seq<ChAbs>)
+    requires eq_mod_markers(x, y), bwd_chain_ok(x, cs),
+    ensures
+        eq_mod_markers(fold_bwd(x, cs), fold_bwd(y, cs)), bwd_chain_ok(y, cs),
+        fold_bwd(y, cs).closing_swept == y.closing_swept, fold_bwd(y, cs).our_swept == y.our_swept,
+    decreases cs.len()
+{
+    if cs.len() > 0 {
+        lemma_fold_bwd_markers(bwd_abs(x, cs[0]), bwd_abs(y, cs[0]), cs.drop_first());
+    }
+}
+pub proof fn lemma_fold_fwd_keeps_markers(a: StAbs, cs: Seq<ChAbs>)
+    ensures fold_fwd(a, cs).closing_swept == a.closing_swept, fold_fwd(a, cs).our_swept == a.our_swept,
+    decreases cs.len()
+{
+    if cs.len() > 0 { lemma_fold_fwd_keeps_markers(fwd_abs(a, cs[0]), cs.drop_first()); }
+}
+pub proof fn lemma_fold_fwd_height(a: StAbs, cs: Seq<ChAbs>)
+    ensures fold_fwd(a, cs).height == a.height, fold_fwd(a, cs).saw_block == a.saw_block, fold_fwd(a, cs).saw_forget == a.saw_forget,
+    decreases cs.len()
+{
+    if cs.len() > 0 { lemma_fold_fwd_height(fwd_abs(a, cs[0]), cs.drop_first()); }
+}
